@@ -9,8 +9,19 @@
     padding) is an EXACT table obligation checked by tools/props/C09.py on the
     arrays dumped from both implementations.
     Scope: transforms, masks, modal axes / eigenvalue tables, shapes, options.
-    The differential operators (C02) and sharded execution (C07) are compared
-    implementation-vs-implementation by the plugin, not modelled here. *)
+    Sharded execution (C07) is compared implementation-vs-implementation by the plugin.
+    "Hence the same model tendencies" ([Section C09_whole_state], proofs in
+    Thm/PrimEqFullFast.v): the whole-state primitive-equation model on the fast layout
+    (Model/PrimEqFullFast.v: explicit_terms, implicit_terms, implicit_inverse composed from
+    the fast transforms and the fast = true differential operators on padded shapes) returns,
+    on every in-range coefficient (phi a, l), the value the reference whole-state model
+    (Model/PrimEqFull.v) returns at (a, l) - for the embedded state E s and in fact for EVERY
+    fast state that agrees with s on the in-range coefficients (garbage in the extra row or in
+    the padding is inert).  Extra hypothesis: [dtables_related] (the derivative recurrence
+    weights a, b of the fast grid are the reference ones re-indexed; a is zero in the padded
+    columns) - an exact table obligation like [tables_related].  Trajectories (time
+    integration) are not covered: tendencies only. *)
+From Dino Require Import Model.Sigma Model.Implicit Model.PrimEq Model.Deriv Model.PrimEqFull Model.PrimEqFullFast Thm.PrimEqFullFast.
 From Dino Require Import Base.Ops Base.Sums Base.Inst Model.SHT Model.SHTFast Thm.SHT Thm.SHTFast.
 From Coq Require Import Qcanon.
 Local Open Scope F_scope.
@@ -113,6 +124,97 @@ Section C09.
   Qed.
 End C09.
 
+(** *** "hence the same model tendencies": whole-state primitive equations, fast vs reference *)
+Section C09_whole_state.
+  Context {F : Type} {o : Ops F} {Fc : FieldC o}.
+  Variable g : @HGrid F.                                 (* the reference grid *)
+  Variables (Mh Lf If Jf : nat) (stacked rev : bool).    (* padded shapes and options of the fast grid *)
+  Variable ff : nat -> nat -> F.
+  Variable pf : nat -> nat -> nat -> F.
+  Variable wf : nat -> F.
+  Variables af bf : nat -> nat -> F.
+  Variables sec2f sinf : nat -> F.
+  Let M := hM g.
+  Let L := hL g.
+  Let q := fast_grid_of g Mh Lf If Jf stacked rev ff pf wf af bf sec2f sinf.
+  Hypothesis HM : (1 <= hM g)%nat.
+  Hypothesis HMh : (hM g <= Mh)%nat.
+  Hypothesis HLf : (hL g <= Lf)%nat.
+  Hypothesis HIf : (hI g <= If)%nat.
+  Hypothesis HJf : (hJ g <= Jf)%nat.
+  Hypothesis T : tables_related (hM g) (hL g) (hI g) (hJ g) Mh Lf If Jf (hf g) (hp g) (hw g) ff pf wf.
+  Hypothesis DT : dtables_related (hM g) (hL g) Lf af bf (ha g) (hb g).
+  Hypothesis H_sec2 : forall j, (j < hJ g)%nat -> sec2f j = hsec2 g j.
+  Hypothesis H_sin : forall j, (j < hJ g)%nat -> sinf j = hsin g j.
+  Variable c : @PEcfg F.
+
+  (** explicit_terms_fast (E s) = E (explicit_terms s) on every in-range coefficient, every field, every tracer *)
+  Theorem C09_explicit_terms_equiv grav orog (s : @State F) k a l :
+    (k < cK c)%nat -> (a < 2 * hM g - 1)%nat -> (l < hL g)%nat ->
+    let out_f := explicit_terms_full_fast q c grav (embed M L orog) (embed_state M L s) in
+    let out := explicit_terms_full g c grav orog s in
+    s_vort out_f k (phi a) l = embed M L (s_vort out k) (phi a) l /\
+    s_div out_f k (phi a) l = embed M L (s_div out k) (phi a) l /\
+    s_temp out_f k (phi a) l = embed M L (s_temp out k) (phi a) l /\
+    s_lnps out_f (phi a) l = embed M L (s_lnps out) (phi a) l /\
+    length (s_tr out_f) = length (s_tr out) /\
+    (forall n, (n < length (s_tr s))%nat ->
+       nth n (s_tr out_f) zero3 k (phi a) l = embed M L (nth n (s_tr out) zero3 k) (phi a) l).
+  Proof.
+    intros Hk Ha Hl out_f out. rewrite !embed_phi by assumption.
+    destruct (explicit_terms_full_fast_equiv g Mh Lf If Jf stacked rev ff pf wf af bf sec2f sinf
+                HM HMh HLf HIf HJf T DT H_sec2 H_sin c grav (embed M L orog) orog (mrel_embed M L orog)
+                (embed_state M L s) s (srel_embed_state g s) k Hk) as (E1 & E2 & E3 & E4 & E5 & E6).
+    repeat split; auto. intros n Hn. rewrite embed_phi by assumption. now apply E6.
+  Qed.
+
+  (** the same for ANY fast state that represents s (whatever sits in the extra row and the padding) *)
+  Theorem C09_explicit_terms_padding_inert grav orogf orog (sf s : @State F) k a l :
+    mrel (hM g) (hL g) orogf orog -> srel (hM g) (hL g) sf s ->
+    (k < cK c)%nat -> (a < 2 * hM g - 1)%nat -> (l < hL g)%nat ->
+    s_vort (explicit_terms_full_fast q c grav orogf sf) k (phi a) l = s_vort (explicit_terms_full g c grav orog s) k a l /\
+    s_div (explicit_terms_full_fast q c grav orogf sf) k (phi a) l = s_div (explicit_terms_full g c grav orog s) k a l /\
+    s_temp (explicit_terms_full_fast q c grav orogf sf) k (phi a) l = s_temp (explicit_terms_full g c grav orog s) k a l /\
+    s_lnps (explicit_terms_full_fast q c grav orogf sf) (phi a) l = s_lnps (explicit_terms_full g c grav orog s) a l.
+  Proof.
+    intros Ho Hs Hk Ha Hl.
+    destruct (explicit_terms_full_fast_equiv g Mh Lf If Jf stacked rev ff pf wf af bf sec2f sinf
+                HM HMh HLf HIf HJf T DT H_sec2 H_sin c grav orogf orog Ho sf s Hs k Hk) as (E1 & E2 & E3 & E4 & _).
+    repeat split; auto.
+  Qed.
+
+  Theorem C09_implicit_terms_equiv (s : @State F) k a l :
+    (a < 2 * hM g - 1)%nat -> (l < hL g)%nat ->
+    let out_f := implicit_terms_full_fast q c (embed_state M L s) in
+    let out := implicit_terms_full g c s in
+    s_vort out_f k (phi a) l = embed M L (s_vort out k) (phi a) l /\
+    s_div out_f k (phi a) l = embed M L (s_div out k) (phi a) l /\
+    s_temp out_f k (phi a) l = embed M L (s_temp out k) (phi a) l /\
+    s_lnps out_f (phi a) l = embed M L (s_lnps out) (phi a) l.
+  Proof.
+    intros Ha Hl out_f out. rewrite !embed_phi by assumption.
+    destruct (implicit_terms_full_fast_equiv g Mh Lf If Jf stacked rev ff pf wf af bf sec2f sinf c
+                (embed_state M L s) s (srel_embed_state g s) k) as (E1 & E2 & E3 & E4).
+    repeat split; auto.
+  Qed.
+
+  Theorem C09_implicit_inverse_equiv eta invt (s : @State F) k a l :
+    (a < 2 * hM g - 1)%nat -> (l < hL g)%nat ->
+    let out_f := implicit_inverse_full_fast q c eta invt (embed_state M L s) in
+    let out := implicit_inverse_full g c eta invt s in
+    s_vort out_f k (phi a) l = embed M L (s_vort out k) (phi a) l /\
+    s_div out_f k (phi a) l = embed M L (s_div out k) (phi a) l /\
+    s_temp out_f k (phi a) l = embed M L (s_temp out k) (phi a) l /\
+    s_lnps out_f (phi a) l = embed M L (s_lnps out) (phi a) l /\
+    trel (hM g) (hL g) (s_tr out_f) (s_tr out).
+  Proof.
+    intros Ha Hl out_f out. rewrite !embed_phi by assumption.
+    destruct (implicit_inverse_full_fast_equiv g Mh Lf If Jf stacked rev ff pf wf af bf sec2f sinf c
+                (embed_state M L s) s (srel_embed_state g s) eta invt k) as (E1 & E2 & E3 & E4 & E5).
+    repeat split; auto; apply E5.
+  Qed.
+End C09_whole_state.
+
 (** masks: the fast mask is the embedded reference mask *)
 Theorem C09_mask_equiv M L :
   (forall a l, (a < 2 * M - 1)%nat -> (l < L)%nat -> mask_fast M L (phi a) l = mask_real a l) /\
@@ -206,6 +308,37 @@ Proof.
   intro H. vm_compute in H. discriminate H.
 Qed.
 
+(** *** non-vacuity of the whole-state statements: the same tables, recurrence weights over Qc,
+    one level; both table relations hold and a re-indexed implicit tendency is non-zero *)
+Definition ex_ar (a l : nat) : Qc := if l =? 1 then Q2Qc (1#2) else Q2Qc 0.
+Definition ex_br (a l : nat) : Qc := if l =? 0 then Q2Qc (1#3) else Q2Qc 0.
+Definition ex_af (k l : nat) : Qc := match k with O => ex_ar 0 l | S O => Q2Qc 0 | S k' => ex_ar k' l end.
+Definition ex_bf (k l : nat) : Qc := match k with O => ex_br 0 l | S O => Q2Qc 0 | S k' => ex_br k' l end.
+Definition ex_g : @HGrid Qc :=
+  mkHG 2 2 4 2 (Q2Qc 1) ex_f ex_p ex_w ex_ar ex_br (fun _ => Q2Qc 2) (fun _ => Q2Qc (1#2)) (Q2Qc 1).
+Definition ex_c : @PEcfg Qc :=
+  mkPE 1 (Q2Qc 2) (Q2Qc (1#4)) (fun _ => Q2Qc (-1)) (fun k => Q2Qc (inject_Z (Z.of_nat k))) (fun _ => Q2Qc 3).
+Definition ex_s : @State Qc := mkState (fun _ => ex_y) (fun _ => ex_y) (fun _ => ex_y) ex_y [].
+Definition ex_q : @FGrid Qc :=
+  fast_grid_of ex_g 2 2 4 3 false false ex_ff ex_pf ex_wf ex_af ex_bf (fun _ => Q2Qc 2) (fun _ => Q2Qc (1#2)).
+
+Example C09_whole_state_satisfiable :
+  dtables_related 2 2 2 ex_af ex_bf ex_ar ex_br /\
+  s_div (implicit_terms_full_fast ex_q ex_c (embed_state 2 2 ex_s)) 0 3 1 = s_div (implicit_terms_full ex_g ex_c ex_s) 0 2 1 /\
+  s_div (implicit_terms_full ex_g ex_c ex_s) 0 2 1 <> 0 /\
+  s_temp (explicit_terms_full_fast ex_q ex_c (Q2Qc 1) (fun _ _ => Q2Qc 0) (embed_state 2 2 ex_s)) 0 3 0
+  = s_temp (explicit_terms_full ex_g ex_c (Q2Qc 1) (fun _ _ => Q2Qc 0) ex_s) 0 2 0.
+Proof.
+  split.
+  { constructor.
+    - intros a l Ha Hl. destruct a as [|[|[|a]]]; try lia; reflexivity.
+    - intros a l Ha H1 H2. lia.
+    - intros a l Ha Hl. destruct a as [|[|[|a]]]; try lia; reflexivity. }
+  split. { qc. }
+  split. { intro H. vm_compute in H. discriminate H. }
+  qc.
+Qed.
+
 Print Assumptions C09_synth_equiv.
 Print Assumptions C09_analysis_equiv.
 Print Assumptions C09_fast_padding_inert.
@@ -217,3 +350,8 @@ Print Assumptions C09_axes_equiv.
 Print Assumptions C09_eigenvalues_equiv.
 Print Assumptions C09_shapes.
 Print Assumptions C09_hyps_satisfiable.
+Print Assumptions C09_explicit_terms_equiv.
+Print Assumptions C09_explicit_terms_padding_inert.
+Print Assumptions C09_implicit_terms_equiv.
+Print Assumptions C09_implicit_inverse_equiv.
+Print Assumptions C09_whole_state_satisfiable.
